@@ -32,7 +32,7 @@ func init() {
 	register(&c17{base{
 		id:          "C17",
 		level:       lvlExploration,
-		rule:        "each case draws a file set, creates a reference archive (absolute clean paths, 1 goroutine, cwd = an unrelated directory) and then re-creates it in fresh copies of the directory under every variation: repetition (many runs, many recovery blocks), longer files already present under the output names (what an earlier Create with other parameters leaves behind), goroutine counts {1,2,3,7,16,64}, permutations of the input list (PAR2; some sets have 48-72 files so that file IDs agreeing in their last bytes occur), a file listed twice with the repeat spelled in different ways, current directory in {set directory, its parent, unrelated}, path spellings {relative, ./x, absolute, absolute with //, /./ and x/../, parent-relative with redundant separators} for the inputs and for the index path, through the library and through the built par binary. The set of written files (names relative to the set directory and bytes) must equal the reference. A key is (format, variation, set shape). Further modes: options left at zero under eight (GOMAXPROCS, detected cores) pairs and the CLI without flags, compared with the documented default constants; an input the format refuses (an empty file) in twelve listing orders: all runs must have the same outcome. Also: the set written through ONE Encoder object with a repeated load step must equal a fresh Create byte for byte (PAR1 and PAR2).. Variant batch: one slice of relative input names reused for the same archive in three directories in turn.. Every seventh PAR2 set has two inputs equal in size and in their first 16 KiB.. Every set lives in a directory whose name contains .par and .par2; mode big-volumes (recovery files of hundreds of KiB under GOMAXPROCS default/1/2/16).",
+		rule:        "each case draws a file set, creates a reference archive (absolute clean paths, 1 goroutine, cwd = an unrelated directory) and then re-creates it in fresh copies of the directory under every variation: repetition (many runs, many recovery blocks), longer files already present under the output names (what an earlier Create with other parameters leaves behind), goroutine counts {1,2,3,7,16,64}, permutations of the input list (PAR2; some sets have 48-72 files so that file IDs agreeing in their last bytes occur), a file listed twice with the repeat spelled in different ways, current directory in {set directory, its parent, unrelated}, path spellings {relative, ./x, absolute, absolute with //, /./ and x/../, parent-relative with redundant separators} for the inputs and for the index path, through the library and through the built par binary. The set of written files (names relative to the set directory and bytes) must equal the reference. A key is (format, variation, set shape). Further modes: options left at zero under eight (GOMAXPROCS, detected cores) pairs and the CLI without flags, compared with the documented default constants; an input the format refuses (an empty file) in twelve listing orders: all runs must have the same outcome. Also: the set written through ONE Encoder object with a repeated load step must equal a fresh Create byte for byte (PAR1 and PAR2).. Variant batch: one slice of relative input names reused for the same archive in three directories in turn.. Every seventh PAR2 set has two inputs equal in size and in their first 16 KiB.. Every set lives in a directory whose name contains .par and .par2; mode big-volumes (recovery files of hundreds of KiB under GOMAXPROCS default/1/2/16). Modes par2-concurrent / par1-concurrent: four Creates of one set and two Verifies of the reference at the same time in one process, six rounds in the plain build and two under the race detector (a report is a violation).",
 		assumptions: commonAssumptions,
 		opts:        core.WorkerOpts{CrashIsViolation: true, WallSeconds: 2400},
 	}})
